@@ -647,6 +647,60 @@ pub fn large_unicode_cases(thorough: bool) -> Vec<Case> {
     v
 }
 
+/// `declared_fallback_case` behind the mark of another encoding: the only possible answer is the fallback on the
+/// declared page, which has nothing to do with the mark the payload starts with
+pub fn marked_declared_fallback_case(rng: &mut Rng) -> Case {
+    let mut c = declared_fallback_case(rng);
+    let (mk_enc, mk) = *rng.pick(&[MARKS[0], MARKS[0], MARKS[1]]);
+    let mut b = mk.to_vec();
+    b.extend_from_slice(&c.bytes);
+    c.bytes = b;
+    c.tag = format!("marked-{}-{}", mk_enc, c.tag);
+    c
+}
+
+/// A text that makes several mess-detector plugins answer with a non-zero ratio at once (control characters,
+/// doubled accents, symbols inside words, alternating case, punctuation runs): its chaos is a sum of several
+/// floats, sensitive to the order of summation
+pub fn many_plugins_text(rng: &mut Rng) -> String {
+    let blen = 300 + rng.below(500);
+    let base = stretch(rng, TEXTS[1].1, blen);
+    let spice = ["\u{1}", "éè", "àâ", "no©te", "éBcDeF", "aBcDeFgH", "!!??;;", "§§", "ÉÈ", "x\u{7}y", "wørd§wørd", "ÀÂÄ"];
+    let mut out = String::new();
+    for (i, w) in base.split(' ').enumerate() {
+        out.push_str(w);
+        out.push(' ');
+        if i % rng.range(3, 9) == 0 {
+            out.push_str(*rng.pick(&spice));
+            out.push(' ');
+        }
+    }
+    out
+}
+
+/// > 1 MB of 7-bit text in a stateful encoding (ISO-2022-JP) that switches to two-byte mode right before byte
+/// 500,000 and never switches back: every *part* looks fine to a decoder started in ASCII mode, the whole does not
+pub fn large_stateful_split_case(rng: &mut Rng) -> Case {
+    let len = 1_000_100 + rng.below(100_000);
+    let mut b: Vec<u8> = b"<meta charset=\"iso-2022-jp\">\n".to_vec();
+    let line = b"plain seven bit text, line after line, nothing else to see here at all.\n";
+    while b.len() < len {
+        b.extend_from_slice(line);
+    }
+    b.truncate(len);
+    let pairs = 2 + rng.below(6);
+    let start = 500_000 - 3 - 2 * pairs;
+    b[start] = 0x1b;
+    b[start + 1] = b'$';
+    b[start + 2] = b'B';
+    for k in 0..pairs {
+        b[start + 3 + 2 * k] = 0x30 + rng.below(0x1f) as u8;
+        b[start + 4 + 2 * k] = 0x21 + rng.below(0x5d) as u8;
+    }
+    // the text after byte 500,000 stays ASCII (no ESC ( B): in two-byte mode it is garbage, an odd byte at the end
+    Case { bytes: b, sett: Sett::default(), tag: "nomodel:large-stateful-split:iso-2022-jp".into() }
+}
+
 pub fn declared_self_case(rng: &mut Rng) -> Case {
     let label = *rng.pick(&["utf-8", "utf8", "UTF-8", "ascii", "us-ascii", "unicode-1-1-utf-8", "ANSI_X3.4-1968", "utf-8"]);
     let is_utf8 = label.to_ascii_lowercase().contains("utf");
@@ -718,6 +772,13 @@ pub fn large_fit_ascii(rng: &mut Rng, heavy: bool) -> Vec<u8> {
 /// > 1 MB that declares a single-byte code page with unassigned bytes, is ASCII otherwise, and carries
 /// one byte that code page cannot decode beyond offset 500 000, away from every probed window.
 pub fn large_declared_bad_tail(rng: &mut Rng) -> (Vec<u8>, &'static str) {
+    let m = rng.below(4);
+    large_declared_bad_byte(rng, m)
+}
+
+/// `place`: 0 = right behind the 500,000-byte prefix (before the last 500,000 bytes), 1 = anywhere beyond the prefix,
+/// 2 = around byte 900,000, 3 = in the last 400,000 bytes
+pub fn large_declared_bad_byte(rng: &mut Rng, place: usize) -> (Vec<u8>, &'static str) {
     let (enc, bad): (&'static str, u8) = *rng.pick(&[("windows-1253", 0xaa), ("windows-1255", 0xd9), ("iso-8859-7", 0xae), ("windows-1257", 0xa1), ("iso-8859-3", 0xa5), ("windows-1253", 0xd2)]);
     let len = 1_000_100 + rng.below(200_000);
     let mut b: Vec<u8> = format!("<?xml version=\"1.0\" encoding=\"{}\"?>\n", enc).into_bytes();
@@ -726,8 +787,19 @@ pub fn large_declared_bad_tail(rng: &mut Rng) -> (Vec<u8>, &'static str) {
         b.extend_from_slice(line);
     }
     b.truncate(len);
-    // default windows start at multiples of len/5 (512 bytes each); stay clear of them
-    let pos = 900_001 + rng.below(50_000);
+    // default windows start at multiples of len/5 (512 bytes each); stay clear of them. The byte may sit right
+    // behind the 500,000-byte prefix, in the middle, or in the last 500,000 bytes – all of it must be looked at
+    let pos = loop {
+        let p = match place {
+            0 => 500_000 + rng.below(len - 1_000_000 + 1).min(len - 500_001),
+            1 => 500_000 + rng.below(len - 500_000),
+            2 => 900_001 + rng.below(50_000),
+            _ => len - 1 - rng.below(400_000),
+        };
+        if p >= 500_000 && p < len && (p % (len / 5)) > 600 {
+            break p;
+        }
+    };
     b[pos] = bad;
     (b, enc)
 }
